@@ -3,23 +3,28 @@ import Log4rsModel.EnvExpand.LemmasSpec
 C19 — `$ENV{NAME}` path expansion substitutes set variables, leaves all else intact.
 Only property theorems and non-vacuity examples live here; helpers are in EnvExpand/Lemmas*.lean.
 
-`expand`      = model of the current code (replace-all on the accumulating output, byte offsets)
-`expandFixed` = model of the proposed single-pass patch
-`specExpand`  = the statement: one left-to-right pass
-`alnum`       = `char::is_alphanumeric` (Unicode table, a parameter); the only facts used about it
-                are that the syntax characters `$` and `}` are not alphanumeric.
+`expand`          = model of the code (`env_util::expand_env_vars`: one pass, byte offsets, partial slices)
+`specExpand`      = the statement: one left-to-right pass on characters
+`location`        = model of the call sites (builders, configuration deserializers, `rotate()`)
+`expand_unfixed`  = the historical code (replace-all on the accumulating output, finding F7), kept
+                    with its witness and its partial theorem
+`alnum`           = `char::is_alphanumeric` (Unicode table, a parameter); only the historical
+                    theorems use facts about it (`$` and `}` are not alphanumeric).
 -/
 namespace Log4rs.EnvExpand
 open Log4rs Log4rs.Str
 
 /-! ### Expansion never panics -/
 
-/-- Every slice the code takes is in bounds and on character boundaries: for each match offset
-`m` of `$ENV{`, `m` and `m + 5` are character boundaries of the path (so `split_at` succeeds and
-yields the text after the prefix), and whenever the scanner accepts a name, `match_end =
-m + 5 + name.len() + 1` (UTF-8 length of the name!) is a character boundary within the path and
-`&path[m..match_end]` is exactly `$ENV{name}`. Hence the model never takes a panic branch.
-Holds for every `alnum`, i.e. for multi-byte names too. -/
+/-- Every slice the code takes is in bounds and on character boundaries.
+(1) For each match offset `m` of `$ENV{`, `m` and `m + 5` are character boundaries of the path
+(`split_at` succeeds and yields the text after the prefix), and whenever the scanner accepts a
+name, `match_end = m + 5 + name.len() + 1` (UTF-8 length of the name!) is a character boundary
+within the path and `path[m..match_end]` is exactly `$ENV{name}`.
+(2) After any number of loop iterations the loop is in an `ok` state (none of the partial
+`split_at` / `&path[copied..match_start]` was off a boundary) and the cursor `copied` is a character
+boundary within the path — so the final `&path[copied..]` is in bounds as well.
+(3) Hence no panic branch is ever taken. Holds for every `alnum`, i.e. for multi-byte names too. -/
 theorem C19_never_panics (alnum : Char → Bool) (env : Env) (path : Text) :
     (∀ m ∈ matchIndices envPrefix path,
       IsCharBoundary path m ∧ IsCharBoundary path (m + ENV_PREFIX_LEN) ∧
@@ -29,166 +34,181 @@ theorem C19_never_panics (alnum : Char → Bool) (env : Env) (path : Text) :
           m + ENV_PREFIX_LEN + utf8Len name + ENV_SUFFIX_LEN ≤ utf8Len path ∧
           IsCharBoundary path (m + ENV_PREFIX_LEN + utf8Len name + ENV_SUFFIX_LEN) ∧
           sliceBytes m (m + ENV_PREFIX_LEN + utf8Len name + ENV_SUFFIX_LEN) path = some (refLit name)) ∧
+    (∀ ms₁ ms₂, matchIndices envPrefix path = ms₁ ++ ms₂ →
+      ∃ st, scanFrom alnum env path { out := [], copied := 0 } ms₁ = .ok st ∧
+        IsCharBoundary path st.copied ∧ st.copied ≤ utf8Len path) ∧
     (expand alnum env path).isPanic = false := by
-  refine ⟨?_, by rw [expand_eq_chars]; rfl⟩
-  intro m hm
-  rw [matchIndices_occs, List.mem_map] at hm
-  obtain ⟨o, ho, rfl⟩ := hm
-  have hpath := occs_sound ho
-  have := @occ_slices alnum o.1 o.2
-  simp only at this
-  rw [← hpath] at this
-  obtain ⟨h1, h2, h3, h4⟩ := this
-  refine ⟨h1, h2, o.2, h3, ?_⟩
-  intro name hs
-  obtain ⟨h5, h6, h7⟩ := h4 name hs
-  exact ⟨by omega, h5, h6, h7⟩
+  refine ⟨?_, ?_, by rw [expand_eq_spec]; rfl⟩
+  · intro m hm
+    rw [matchIndices_occs, List.mem_map] at hm
+    obtain ⟨o, ho, rfl⟩ := hm
+    have hpath := occs_sound ho
+    have := @occ_slices alnum o.1 o.2
+    simp only at this
+    rw [← hpath] at this
+    obtain ⟨h1, h2, h3, h4⟩ := this
+    refine ⟨h1, h2, o.2, h3, ?_⟩
+    intro name hs
+    obtain ⟨h5, h6, h7⟩ := h4 name hs
+    exact ⟨by omega, h5, h6, h7⟩
+  · intro ms₁ ms₂ hms
+    obtain ⟨st, h1, h2⟩ := scanFrom_ok alnum env path ms₁ { out := [], copied := 0 }
+      (fun m hm => matchIndices_mem (by rw [hms]; simp [hm]))
+      ⟨[], path, rfl, rfl⟩
+    exact ⟨st, h1, h2, h2.le⟩
 
-/-- The patched algorithm never panics either (all of its slices succeed: it returns `ok`). -/
-theorem C19_fixed_never_panics (alnum : Char → Bool) (env : Env) (path : Text) :
-    (expandFixed alnum env path).isPanic = false := by
-  rw [expandFixed_eq_spec]; rfl
+/-! ### The expansion is the single pass of the statement -/
 
-/-! ### References to unset variables, malformed and unterminated references -/
+/-- The code equals the specification on EVERY path, for every environment (values may even
+contain `$`) and every `alnum`: text is copied, every well-formed terminated reference to a set
+variable met by one left-to-right pass is replaced by the value, values are never re-scanned. -/
+theorem C19_expand_eq_spec (alnum : Char → Bool) (env : Env) (path : Text) :
+    expand alnum env path = .ok (specExpand alnum env path) :=
+  expand_eq_spec alnum env path
+
+/-- "Substitutes set variables, leaves all else intact": the path splits into literal characters
+and references (`origRender segs = path`), the result is the same sequence with every literal
+character kept and every reference replaced by its value (`finalRender segs`), and the split is
+the one the statement describes (`Complete`): each replaced reference is well formed and names a
+set variable with exactly that value, and no literal character starts a well-formed reference to
+a set variable — nothing that should have been replaced is left over. -/
+theorem C19_other_text_untouched (alnum : Char → Bool) (env : Env) (path : Text) :
+    ∃ segs : List Seg, origRender segs = path ∧ expand alnum env path = .ok (finalRender segs) ∧
+      Complete alnum env segs := by
+  refine ⟨parse alnum env path, origRender_parse alnum env path, ?_, complete_parseGo alnum env path 0⟩
+  rw [expand_eq_spec, specExpand, specGo_eq_final]; rfl
 
 /-- A path that contains no well-formed, terminated reference to a SET variable — whatever else it
 contains: references to unset variables, `$ENV{}`, illegal first or inner characters, missing
-braces, stray `$ { }`, non-ASCII text — is returned unchanged. No hypothesis on `alnum` or on the
-values. -/
+braces, stray `$ { }`, non-ASCII text — is returned unchanged. -/
 theorem C19_unset_and_malformed_untouched (alnum : Char → Bool) (env : Env) (path : Text)
     (h : ∀ a t n, path = a ++ (envPrefix ++ t) → refAt alnum t = some n → lookup env n = none) :
     expand alnum env path = .ok path := by
-  rw [expand_eq_chars, expandChars_untouched alnum env path h]
+  rw [expand_eq_spec, specExpand, specGo_untouched alnum env path h path [] rfl]
 
-/-! ### Equality with the single pass -/
+/-! ### Call sites -/
 
-/-- The current code equals the single left-to-right pass whenever the path is `junctionFree`:
-no literal `$` of the path, read together with the EXPANDED text to its right, starts a
-well-formed reference to a set variable (so no substituted value, glued to its neighbouring
-literal text, spells a reference that a later replace-all hits). Values free of `$` as in the property's quantifier; `$` and `}` not
-alphanumeric. -/
-theorem C19_expand_eq_spec_partial (alnum : Char → Bool) (env : Env) (path : Text)
+/-- Every call site — `FileAppender::builder().build`, `RollingFileAppender::builder().build`, the
+two configuration deserializers, and `rotate()` for every slot of a roller built directly or from
+a configuration — puts its file at the text it was given (for the roller: the pattern with the
+index filled in) expanded exactly ONCE; in particular a configured path lands where the same text
+given to the builder lands. (On the model of the call sites in EnvExpand/Model.lean; that the
+real deserializers hand the configured text to `build` unexpanded is what the `file-cfg`,
+`rolling-cfg`, `roller-cfg` cases of the correspondence check observe.) -/
+theorem C19_call_sites_expand_once (alnum : Char → Bool) (env : Env) (site : CallSite) (given : Text) :
+    location alnum env site given = .ok (specLocation alnum env site given) ∧
+    location alnum env .fileConfig given = location alnum env .fileBuilder given ∧
+    location alnum env .rollingConfig given = location alnum env .rollingBuilder given ∧
+    ∀ i, location alnum env (.rollerConfig i) given = location alnum env (.rollerBuilder i) given := by
+  refine ⟨?_, rfl, rfl, fun _ => rfl⟩
+  cases site <;>
+    simp [location, specLocation, CallSite.submitted, fileBuild, fileDeserialize, rollingBuild,
+      rollingDeserialize, rollerSlot, rollerBuild, rollerDeserialize, expand_eq_spec]
+
+/-- Why "once" matters: expansion is not idempotent. `p$ENV{$ENV{W}}q` with W=`T`, T=`r`: one
+application gives `p$ENV{T}q` (the outer reference is malformed and stays), a second application
+would turn that into `prq`. (Evaluation on one input.) -/
+theorem C19_expand_not_idempotent :
+    specExpand asciiAlnum [(['W'], ['T']), (['T'], ['r'])] ['p', '$', 'E', 'N', 'V', '{', '$', 'E', 'N', 'V', '{', 'W', '}', '}', 'q'] = ['p', '$', 'E', 'N', 'V', '{', 'T', '}', 'q'] ∧
+    specExpand asciiAlnum [(['W'], ['T']), (['T'], ['r'])] (specExpand asciiAlnum [(['W'], ['T']), (['T'], ['r'])] ['p', '$', 'E', 'N', 'V', '{', '$', 'E', 'N', 'V', '{', 'W', '}', '}', 'q']) = ['p', 'r', 'q'] ∧
+    location asciiAlnum [(['W'], ['T']), (['T'], ['r'])] .fileConfig ['p', '$', 'E', 'N', 'V', '{', '$', 'E', 'N', 'V', '{', 'W', '}', '}', 'q'] = .ok ['p', '$', 'E', 'N', 'V', '{', 'T', '}', 'q'] := by
+  decide
+
+/-! ### Historical: the code before the fix of finding F7 (`expand_unfixed`) -/
+
+/-- The historical code never panicked either. -/
+theorem C19_unfixed_never_panics (alnum : Char → Bool) (env : Env) (path : Text) :
+    (expand_unfixed alnum env path).isPanic = false := by
+  rw [expand_unfixed_eq_chars]; rfl
+
+/-- The historical code equalled the single pass whenever the path is `junctionFree`: no literal
+`$` of the path, read together with the EXPANDED text to its right, starts a well-formed
+reference to a set variable (so no substituted value, glued to its neighbouring literal text,
+spells a reference that a later replace-all hits). Values free of `$` as in the property's
+quantifier; `$` and `}` not alphanumeric. -/
+theorem C19_unfixed_eq_spec_partial (alnum : Char → Bool) (env : Env) (path : Text)
     (hd : alnum '$' = false) (hc : alnum '}' = false)
     (hv : ∀ e ∈ env, '$' ∉ e.2)
     (hj : junctionFree alnum env path = true) :
-    expand alnum env path = .ok (specExpand alnum env path) := by
-  rw [expand_eq_chars]
+    expand_unfixed alnum env path = .ok (specExpand alnum env path) := by
+  rw [expand_unfixed_eq_chars]
   exact congrArg _ (expandChars_eq_spec hd hc (fun n v h => hv (n, v) (lookup_mem h)) path hj)
 
-/-- The ordinary use: if every `$` of the path starts a well-formed reference to a set variable
-(the single pass leaves no literal `$` behind), the current code equals the single pass. -/
-theorem C19_expand_eq_spec_no_stray_dollar (alnum : Char → Bool) (env : Env) (path : Text)
+/-- … hence, on those paths, old and new code agree (the fix changes nothing there). -/
+theorem C19_unfixed_eq_expand_partial (alnum : Char → Bool) (env : Env) (path : Text)
+    (hd : alnum '$' = false) (hc : alnum '}' = false)
+    (hv : ∀ e ∈ env, '$' ∉ e.2)
+    (hj : junctionFree alnum env path = true) :
+    expand_unfixed alnum env path = expand alnum env path := by
+  rw [C19_unfixed_eq_spec_partial alnum env path hd hc hv hj, expand_eq_spec]
+
+/-- The ordinary use: if every `$` of the path starts a well-formed reference to a set variable,
+the historical code equalled the single pass. -/
+theorem C19_unfixed_eq_spec_no_stray_dollar (alnum : Char → Bool) (env : Env) (path : Text)
     (hd : alnum '$' = false) (hc : alnum '}' = false)
     (hv : ∀ e ∈ env, '$' ∉ e.2)
     (h : ∀ s ∈ parse alnum env path, s ≠ Seg.chr '$') :
-    expand alnum env path = .ok (specExpand alnum env path) :=
-  C19_expand_eq_spec_partial alnum env path hd hc hv
+    expand_unfixed alnum env path = .ok (specExpand alnum env path) :=
+  C19_unfixed_eq_spec_partial alnum env path hd hc hv
     (junctionFreeSegs_of_no_dollar alnum env _ h)
 
-/-- The unrestricted statement (values free of `$`, nothing else assumed about the path). -/
-def C19_expand_eq_spec_statement : Prop :=
+/-- The unrestricted statement about the historical code (values free of `$`). -/
+def C19_unfixed_eq_spec_statement : Prop :=
   ∀ (alnum : Char → Bool) (env : Env) (path : Text),
     alnum '$' = false → alnum '}' = false → (∀ e ∈ env, '$' ∉ e.2) →
-    expand alnum env path = .ok (specExpand alnum env path)
+    expand_unfixed alnum env path = .ok (specExpand alnum env path)
 
-/-- F7: the unrestricted statement is FALSE of the current code. Witness `$$ENV{A}NV{B}$ENV{B}`
-with A=`E`, B=`v`: the code yields `vv`, the single pass `$ENV{B}v`. (Evaluation of the model on
-one input; the same input is replayed against the real crate by the correspondence check.) -/
-theorem C19_expand_eq_spec_false : ¬ C19_expand_eq_spec_statement := by
+/-- F7: the unrestricted statement was FALSE of the historical code. Witness
+`$$ENV{A}NV{B}$ENV{B}` with A=`E`, B=`v`: that code yields `vv`, the single pass `$ENV{B}v`.
+(Evaluation of the model on one input; the same input is in the corpus of the correspondence check.) -/
+theorem C19_unfixed_eq_spec_false : ¬ C19_unfixed_eq_spec_statement := by
   intro h
   have := h asciiAlnum [(['A'], ['E']), (['B'], ['v'])] ['$', '$', 'E', 'N', 'V', '{', 'A', '}', 'N', 'V', '{', 'B', '}', '$', 'E', 'N', 'V', '{', 'B', '}']
     (by decide) (by decide) (by decide)
   revert this
   decide
 
-/-- what the code returns on the witness, and what the statement asks for -/
-theorem C19_witness_values :
-    expand asciiAlnum [(['A'], ['E']), (['B'], ['v'])] ['$', '$', 'E', 'N', 'V', '{', 'A', '}', 'N', 'V', '{', 'B', '}', '$', 'E', 'N', 'V', '{', 'B', '}'] = .ok ['v', 'v'] ∧
+/-- the F7 witness: historical code, statement, hypothesis of the partial theorem, and the code -/
+theorem C19_unfixed_witness_values :
+    expand_unfixed asciiAlnum [(['A'], ['E']), (['B'], ['v'])] ['$', '$', 'E', 'N', 'V', '{', 'A', '}', 'N', 'V', '{', 'B', '}', '$', 'E', 'N', 'V', '{', 'B', '}'] = .ok ['v', 'v'] ∧
     specExpand asciiAlnum [(['A'], ['E']), (['B'], ['v'])] ['$', '$', 'E', 'N', 'V', '{', 'A', '}', 'N', 'V', '{', 'B', '}', '$', 'E', 'N', 'V', '{', 'B', '}'] = ['$', 'E', 'N', 'V', '{', 'B', '}', 'v'] ∧
-    junctionFree asciiAlnum [(['A'], ['E']), (['B'], ['v'])] ['$', '$', 'E', 'N', 'V', '{', 'A', '}', 'N', 'V', '{', 'B', '}', '$', 'E', 'N', 'V', '{', 'B', '}'] = false := by
+    junctionFree asciiAlnum [(['A'], ['E']), (['B'], ['v'])] ['$', '$', 'E', 'N', 'V', '{', 'A', '}', 'N', 'V', '{', 'B', '}', '$', 'E', 'N', 'V', '{', 'B', '}'] = false ∧
+    expand asciiAlnum [(['A'], ['E']), (['B'], ['v'])] ['$', '$', 'E', 'N', 'V', '{', 'A', '}', 'N', 'V', '{', 'B', '}', '$', 'E', 'N', 'V', '{', 'B', '}'] = .ok ['$', 'E', 'N', 'V', '{', 'B', '}', 'v'] := by
   decide
-
-/-- All other text is untouched (current code, junction-free paths): the path splits into literal
-characters and references (`origRender segs = path`), the result is the same sequence with every
-literal character kept and every reference replaced by its value (`finalRender segs`), and the
-split is the one the statement describes (`Complete`): each replaced reference is well formed and
-names a set variable with exactly that value, and no literal character starts a well-formed
-reference to a set variable — nothing that should have been replaced is left over. -/
-theorem C19_other_text_untouched (alnum : Char → Bool) (env : Env) (path : Text)
-    (hd : alnum '$' = false) (hc : alnum '}' = false)
-    (hv : ∀ e ∈ env, '$' ∉ e.2)
-    (hj : junctionFree alnum env path = true) :
-    ∃ segs : List Seg, origRender segs = path ∧ expand alnum env path = .ok (finalRender segs) ∧
-      Complete alnum env segs := by
-  refine ⟨parse alnum env path, origRender_parse alnum env path, ?_, complete_parseGo alnum env path 0⟩
-  rw [C19_expand_eq_spec_partial alnum env path hd hc hv hj, specExpand, specGo_eq_final]
-  rfl
-
-/-! ### The proposed patch -/
-
-/-- The single-pass patch equals the specification on EVERY path, for every environment (values may
-even contain `$`) and every `alnum`. -/
-theorem C19_fixed_eq_spec (alnum : Char → Bool) (env : Env) (path : Text) :
-    expandFixed alnum env path = .ok (specExpand alnum env path) :=
-  expandFixed_eq_spec alnum env path
-
-/-- … and so, for the patch, "substitutes set variables, leaves all else intact" holds without any
-restriction: literal characters kept, exactly the well-formed references to set variables found
-by one left-to-right pass replaced by their values, nothing left over. -/
-theorem C19_fixed_other_text_untouched (alnum : Char → Bool) (env : Env) (path : Text) :
-    ∃ segs : List Seg, origRender segs = path ∧ expandFixed alnum env path = .ok (finalRender segs) ∧
-      Complete alnum env segs := by
-  refine ⟨parse alnum env path, origRender_parse alnum env path, ?_, complete_parseGo alnum env path 0⟩
-  rw [expandFixed_eq_spec, specExpand, specGo_eq_final]; rfl
-
-/-- The patch on the F7 witness. -/
-theorem C19_fixed_on_witness :
-    expandFixed asciiAlnum [(['A'], ['E']), (['B'], ['v'])] ['$', '$', 'E', 'N', 'V', '{', 'A', '}', 'N', 'V', '{', 'B', '}', '$', 'E', 'N', 'V', '{', 'B', '}'] = .ok ['$', 'E', 'N', 'V', '{', 'B', '}', 'v'] := by
-  decide
-
-/-! ### Call sites -/
-
-/-- File and rolling appender open the file at `expand path`; the roller's archive of slot `i` is
-`expand (pattern with "{}" := i)` — under the junction-free hypothesis on that string, the location
-the statement asks for. -/
-theorem C19_archive_location (alnum : Char → Bool) (env : Env) (pattern : Text) (i : Nat)
-    (hd : alnum '$' = false) (hc : alnum '}' = false) (hv : ∀ e ∈ env, '$' ∉ e.2)
-    (hj : junctionFree alnum env (replaceAll ['{', '}'] (decimal i) pattern) = true) :
-    archivePath alnum env false pattern i = .ok (specArchive alnum env pattern i) ∧
-    archivePath alnum env true pattern i = .ok (specArchive alnum env pattern i) := by
-  refine ⟨?_, ?_⟩
-  · simp only [archivePath, appenderPath, Bool.false_eq_true, if_false, specArchive]
-    exact C19_expand_eq_spec_partial alnum env _ hd hc hv hj
-  · simp only [archivePath, appenderPath, if_true, specArchive]
-    exact expandFixed_eq_spec alnum env _
 
 /-! ### Non-vacuity (tests on sample inputs, not proofs of the property) -/
 
-/-- the hypotheses of the partial theorem hold on a path with a substituted, a repeated, an unset
-and a malformed reference and stray `$ { }`; all three functions agree on it -/
+/-- a path with a substituted, a repeated, an unset and a malformed reference and stray `$ { }` -/
 example :
     let env : Env := [(['A'], ['v', 'a', 'l']), (['B', '.', 'c'], [])]
     let path : Text := ['l', '/', '$', 'E', 'N', 'V', '{', 'A', '}', '/', '$', 'E', 'N', 'V', '{', 'U', '}', 'x', '$', '/', '$', 'E', 'N', 'V', '{', 'A', '}', '.', '$', 'E', 'N', 'V', '{', '.', 'A', '}', '{', '}', '$', 'E', 'N', 'V', '{', 'B', '.', 'c', '}', '$', 'E', 'N', 'V', '{', 'A']
     junctionFree asciiAlnum env path = true ∧ (∀ e ∈ env, '$' ∉ e.2) ∧
     specExpand asciiAlnum env path = ['l', '/', 'v', 'a', 'l', '/', '$', 'E', 'N', 'V', '{', 'U', '}', 'x', '$', '/', 'v', 'a', 'l', '.', '$', 'E', 'N', 'V', '{', '.', 'A', '}', '{', '}', '$', 'E', 'N', 'V', '{', 'A'] ∧
     expand asciiAlnum env path = .ok (specExpand asciiAlnum env path) ∧
-    expandFixed asciiAlnum env path = .ok (specExpand asciiAlnum env path) := by
+    expand_unfixed asciiAlnum env path = .ok (specExpand asciiAlnum env path) := by
   decide
 
 /-- a multi-byte name (`é` = 2 bytes, `中` = 3 bytes) preceded by multi-byte text: the byte offsets
-of the slice are character boundaries -/
+of the slices are character boundaries -/
 example :
     let alnum : Char → Bool := fun c => asciiAlnum c || c = 'é' || c = '中'
     let path : Text := ['€', '中', '$', 'E', 'N', 'V', '{', 'é', '中', '}', '€']
     expand alnum [(['é', '中'], ['x'])] path = .ok ['€', '中', 'x', '€'] ∧
     matchIndices envPrefix path = [6] ∧
-    sliceBytes 6 (6 + 5 + 5 + 1) path = some (refLit ['é', '中']) := by
+    sliceBytes 6 (6 + 5 + 5 + 1) path = some (refLit ['é', '中']) ∧
+    scan alnum [(['é', '中'], ['x'])] path = .ok { out := ['€', '中', 'x'], copied := 17 } := by
   decide
 
 /-- the hypothesis of `C19_unset_and_malformed_untouched` on a path full of malformed references -/
 example :
     expand asciiAlnum [(['A'], ['v'])] ['$', 'E', 'N', 'V', '{', '}', '$', 'E', 'N', 'V', '{', '.', 'A', '}', '$', 'E', 'N', 'V', '{', 'A', '-', '}', '$', 'E', 'N', 'V', '{', 'A', '$', 'E', 'N', 'V', '{', 'U', '}', '$'] =
       .ok ['$', 'E', 'N', 'V', '{', '}', '$', 'E', 'N', 'V', '{', '.', 'A', '}', '$', 'E', 'N', 'V', '{', 'A', '-', '}', '$', 'E', 'N', 'V', '{', 'A', '$', 'E', 'N', 'V', '{', 'U', '}', '$'] := by
+  decide
+
+/-- the roller: the index is filled in first, so `$ENV{A{}}` names `A0`, `A1`, … -/
+example :
+    location asciiAlnum [(['A', '0'], ['z']), (['A', '1'], ['o'])] (.rollerConfig 1) ['p', '$', 'E', 'N', 'V', '{', 'A', '{', '}', '}', '.', '{', '}'] =
+      .ok ['p', 'o', '.', '1'] := by
   decide
 
 end Log4rs.EnvExpand
